@@ -19,20 +19,20 @@ import (
 )
 
 type Anchor struct {
-	ID     int      `json:"id"`
-	Fam    string   `json:"fam"`
-	Label  string   `json:"label"` // algorithm branch the arguments select (by reading the code)
-	Fn     string   `json:"fn"`
-	H      int      `json:"h"` // 2a / 2v / 2x (half-integer parameter), family specific
-	K      int      `json:"k"`
-	X      string   `json:"x"` // hex
-	X2     string   `json:"x2"`
-	Obs    string   `json:"obs"`
-	Ref    string   `json:"ref"` // float64 evaluation of the closed form (diagnostic / hunt only)
-	Tol    string   `json:"tol"`
-	Desc   string   `json:"desc"`
-	Skip   string   `json:"skip,omitempty"`
-	NonFin bool     `json:"nonfinite,omitempty"`
+	ID     int    `json:"id"`
+	Fam    string `json:"fam"`
+	Label  string `json:"label"` // algorithm branch the arguments select (by reading the code)
+	Fn     string `json:"fn"`
+	H      int    `json:"h"` // 2a / 2v / 2x (half-integer parameter), family specific
+	K      int    `json:"k"`
+	X      string `json:"x"` // hex
+	X2     string `json:"x2"`
+	Obs    string `json:"obs"`
+	Ref    string `json:"ref"` // float64 evaluation of the closed form (diagnostic / hunt only)
+	Tol    string `json:"tol"`
+	Desc   string `json:"desc"`
+	Skip   string `json:"skip,omitempty"`
+	NonFin bool   `json:"nonfinite,omitempty"`
 	goal   string
 	tac    string
 	x      float64
@@ -282,7 +282,7 @@ func besselLabel(v, x float64) string {
 // ---------------------------------------------------------------- building
 
 type builder struct {
-	as   []*Anchor
+	as    []*Anchor
 	quick bool
 }
 
@@ -329,7 +329,7 @@ func (b *builder) igamma(rng *Rng) {
 	// reached by certified anchors and are reported as uncovered (the sweep exercises them).
 	hs := []int{1, 2, 3, 4, 5, 6, 7, 10, 11, 20, 21, 39, 42, 45, 58, 59, 60, 61, 80, 100, 121}
 	if b.quick {
-		hs = []int{1, 2, 3, 4, 5, 6, 7, 10, 11, 20, 21, 42, 45, 58, 59, 60, 61, 80, 100}
+		hs = []int{1, 2, 3, 4, 5, 6, 7, 10, 11, 20, 21, 42, 45, 58, 60, 61, 80, 100}
 	}
 	base := []float64{1e-17, 0.01, 0.1, 0.19, 0.21, 0.3, 0.45, 0.55, 0.59, 0.61, 0.75, 1.0, 1.09, 1.11, 1.5, 2.3, 5, 7.5, 12, 20, 29, 31, 50, 100, 300, 700, 720}
 	rel := []float64{0.2, 0.5, 0.7, 0.9, 0.97, 1.0, 1.03, 1.1, 1.3, 1.5, 2, 4.5}
@@ -432,7 +432,7 @@ func (b *builder) igamma(rng *Rng) {
 				an.Skip = "closed form overflows binary64 (overflow is the specified outcome; checked by the sweep)"
 			case an.tol < 1e-320:
 				an.Skip = "tolerance underflows"
-			case c.h%2 == 1 && pq < 1e-7:
+			case c.h%2 == 1 && (pq < 1e-7 || (b.quick && pq < 1e-4)):
 				an.Skip = "half-integer a with P or Q below 1e-7: the erf integral cannot be certified to the needed relative accuracy in bounded time"
 			case c.h%2 == 0 && (pq < 1e-100 || (pq < 1e-60 && c.h > 24)):
 				an.Skip = "tiny value: closed form 1 - Q needs several hundred bits of cancellation"
@@ -563,8 +563,9 @@ func (b *builder) polygammas() {
 }
 
 // Polygamma(n, x), n >= 2: differences that need no zeta value:
-//   psi_n(m+1)   -               psi_n(1) = (-1)^n n! sum_{k=1..m} 1/k^(n+1)
-//   psi_n(m+1/2) - (2^(n+1)-1) * psi_n(1) = (-1)^n n! sum_{k<m} 2^(n+1)/(2k+1)^(n+1)
+//
+//	psi_n(m+1)   -               psi_n(1) = (-1)^n n! sum_{k=1..m} 1/k^(n+1)
+//	psi_n(m+1/2) - (2^(n+1)-1) * psi_n(1) = (-1)^n n! sum_{k<m} 2^(n+1)/(2k+1)^(n+1)
 func (b *builder) polygammaN() {
 	ns := []int{2, 3, 4, 6}
 	ms := []int{1, 2, 5, 12, 17, 29, 60, 150}
@@ -616,7 +617,7 @@ func (b *builder) bessel() {
 	ns := []int{0, 1, 2, 3, 5, 8, 12}
 	xs := []float64{0.01, 0.1, 0.3, 1, 1.9, 2, 2.1, 5, 20, 50, 99, 101, 300, 600, 700}
 	if b.quick {
-		ns = []int{0, 1, 2, 5, 12}
+		ns = []int{0, 1, 2, 5}
 		xs = []float64{0.01, 0.3, 1.9, 2, 2.1, 20, 101, 600}
 	}
 	one := func(v float64, n int, neg bool, x float64, logv bool) {
